@@ -472,6 +472,14 @@ func (x *Exec) registerHarnessIntrinsics() {
 			x, y := a[0].(SliceV), a[1].(SliceV)
 			return p.C.BoolC(x.Obj == y.Obj && x.Obj != nil), nil
 		})
+		r("vWitness", func(p *Path, fn *ssa.Function, a []Value) (Value, *Panic) {
+			p.witness(strOf(a[0]), T(a[1]))
+			return nil, nil
+		})
+		r("vKnown", func(p *Path, fn *ssa.Function, a []Value) (Value, *Panic) {
+			p.known[strOf(a[0])] = T(a[1])
+			return nil, nil
+		})
 		r("vNote", func(p *Path, fn *ssa.Function, a []Value) (Value, *Panic) {
 			return nil, nil
 		})
